@@ -20,9 +20,10 @@ ENext == /\ Next
                     THEN Append(hist, [kind |-> "end", obs |-> Obs])
                     ELSE IF pc = "idle" /\ pc' # "idle"
                     THEN Append(hist, IF op'.kind = "kv" THEN [kind |-> "kv", upd |-> op'.upd, ord |-> op'.ord]
-                                      ELSE [kind |-> "app", k |-> op'.k, failg |-> op'.failg, failc |-> op'.failc])
-                    ELSE IF pc = "idle" /\ pc' = "idle"     \* operation refused at its first step
-                    THEN Append(Append(hist, [kind |-> "app", k |-> -1, failg |-> 0, failc |-> 0]),
+                                      ELSE [kind |-> "app", k |-> op'.k, failg |-> op'.failg, failc |-> op'.failc, why |-> op'.why])
+                    ELSE IF pc = "idle" /\ pc' = "idle" /\ nops' > nops    \* operation refused at its first step
+                    THEN Append(Append(hist, IF op'.kind = "refuse" THEN [kind |-> "refuse", why |-> op'.why]
+                                             ELSE [kind |-> "app", k |-> -1, failg |-> 0, failc |-> 0, why |-> "none"]),
                                 [kind |-> "end", obs |-> Obs])
                     ELSE hist
 
